@@ -26,7 +26,7 @@ def test(sid):
             return meta
         d1 = sh(f"cd {wt} && {env} /venv/bin/python {d}/demo.py").returncode
         t = sh(f"cd {wt} && {env} /venv/bin/python -m pytest -q -p no:cacheprovider --timeout=900 --continue-on-collection-errors 2>&1 | tail -1").stdout.strip()
-        chk = sh(f"cd {ROOT} && VERIF_REPO={wt} timeout 1500 bin/vcheck {prop} --tier quick --no-evidence")
+        chk = sh(f"cd {ROOT} && VERIF_REPO={wt} timeout 2700 bin/vcheck {prop} --tier quick --no-evidence")
         lines = chk.stdout.splitlines()
         viol = [l for l in lines if l.startswith("VIOLATION")]
         lem = sorted({re.search(r"lemma=([\w\[\]\(\), .']+?) clause=([\w:.\-]+)", l).group(1).split("[")[0] + "/" + re.search(r"clause=([\w:.\-]+)", l).group(1)
